@@ -525,11 +525,15 @@ func Drive(o *DriveOpts) int {
 		rf := &ReplayFile{Property: o.Property, Signature: s, Violation: si.viol}
 		if plan != nil {
 			orig = len(plan.Steps)
-			mp, _ := o.minimise(plan, s, 160)
+			budget := 160
+			if nviol > 6 {
+				budget = 0 // many signatures at once: report them unminimised rather than spend minutes shrinking each
+			}
+			mp, _ := o.minimise(plan, s, budget)
 			if len(mp.Steps) < orig {
 				minimised = true
 			}
-			if len(plan.Steps) == 0 && si.first.Ops > 1 {
+			if len(plan.Steps) == 0 && si.first.Ops > 1 && budget > 0 {
 				orig = si.first.Ops
 				mp, _ = o.minimiseOps(mp, s, si.first.Ops, 120)
 				if len(mp.Cfg.OpSkip) > 0 {
